@@ -18,10 +18,10 @@ SHARD_TIMEOUT = {"quick": 240, "thorough": 1500}
 def plan(tier, seed):
     specs = []
     n = 14 if tier == "quick" else 16
-    per = 500 if tier == "quick" else 2600
+    per = 500 if tier == "quick" else 60000
     for i in range(n):
         specs.append({"name": f"seq{i}", "kind": "seq", "index": i, "sequences": per,
-                      "budget_s": 90 if tier == "quick" else 1200})
+                      "budget_s": 90 if tier == "quick" else 420})
     specs.append({"name": "small-exh", "kind": "small", "max_len": 4 if tier == "quick" else 6,
                   "budget_s": 120 if tier == "quick" else 1200})
     return specs
